@@ -10,7 +10,8 @@ namespace PV.Time
     this is the algorithm numpy's datetime64 uses for its day count) -/
 def daysFromCivil (y : Int) (m d : Nat) : Int :=
   let y' : Int := if m ≤ 2 then y - 1 else y
-  let era : Int := Int.tdiv (if y' ≥ 0 then y' else y' - 399) 400   -- C division truncates (numpy / Hinnant)
+  -- C: `(y >= 0 ? y : y - 399) / 400` with truncating division, written with floor divisions of non-negative numbers
+  let era : Int := if y' ≥ 0 then y' / 400 else -((399 - y') / 400)
   let yoe : Int := y' - era * 400
   let mp : Int := ((m : Int) + 9) % 12
   let doy : Int := (153 * mp + 2) / 5 + (d : Int) - 1
